@@ -181,6 +181,18 @@ def table_strings():
     return rows
 
 
+def alt_strings():
+    import re
+    alts = []
+    with open(vlib.COQ + '/Sym/SgTable_gen.v') as f:
+        for line in f:
+            m = re.match(r'\s*mkAlt \[([0-9;]*)\] (\d+) (\d+)', line)
+            if m:
+                alts.append({'hm': bytes(int(x) for x in m.group(1).split(';') if x), 'ext': int(m.group(2)),
+                             'pos': int(m.group(3))})
+    return alts
+
+
 def gen_hall(rng, rows, n):
     out = []
     lat = 'PABCIRSTFH'
